@@ -368,7 +368,6 @@ class XMIResource(Resource):
 
     def save(self, output=None, options=None):
         self.options = options or {}
-        output = self.open_out_stream(output)
         self.prefixes.clear()
         self.reverse_nsmap.clear()
 
@@ -396,6 +395,8 @@ class XMIResource(Resource):
         xmi_version = QName(XMI_URL, 'version')
         xmi_root.attrib[xmi_version] = '2.0'
         tree = ElementTree(xmi_root)
+        # the target is only opened (and truncated) once the tree exists
+        output = self.open_out_stream(output)
         tree.write(output,
                    pretty_print=True,
                    xml_declaration=True,
